@@ -107,10 +107,9 @@ def err_kind(status, msg):
 
 
 def fnv64(b):
-    h = 14695981039346656037
-    for x in b:
-        h = ((h ^ x) * 1099511628211) & 0xFFFFFFFFFFFFFFFF
-    return h
+    """digest printed in observations (Adler-32: C speed here, two small accumulators in the driver)"""
+    import zlib
+    return zlib.adler32(b) & 0xFFFFFFFF
 
 
 def d14(t):
